@@ -163,7 +163,9 @@ impl Scenario for Socks {
             cuts: (0..rng.usize_below(5)).map(|_| 1 + rng.usize_below(6)).collect(),
             gap_us: if rng.chance(1, 2) { 0 } else { rng.size(1, 3_000) },
             bad_datagrams: if matches!(dest, Dest::Udp(_)) && rng.chance(1, 2) {
-                (0..1 + rng.usize_below(4)).map(|_| rng.below(8) as u8).collect()
+                // 0..7: fixed shapes; 8..29: an IPv6-addressed datagram cut after 0..21 bytes;
+                // 30..39: an IPv4-addressed one cut after 0..9 bytes
+                (0..1 + rng.usize_below(4)).map(|_| if rng.chance(1, 2) { rng.below(8) as u8 } else { 8 + rng.below(32) as u8 }).collect()
             } else {
                 vec![]
             },
@@ -198,7 +200,19 @@ impl Scenario for Socks {
                 }
             }
         }
-        sim::finish(out, &rep)
+        let mut out = sim::finish(out, &rep);
+        // "or it fails the request": a panic on the SOCKS paths is neither a well-formed
+        // dialogue nor a failed request
+        let panics: Vec<(String, String)> = out
+            .violations
+            .iter()
+            .filter(|v| v.property == "C09" && v.key.starts_with("panic") && v.detail.contains("socks5_"))
+            .map(|v| (v.key.clone(), v.detail.clone()))
+            .collect();
+        for (k, d) in panics {
+            out.violate("C15", format!("socks:{}", k), d);
+        }
+        out
     }
 }
 
@@ -794,7 +808,20 @@ async fn udp_exchange(plan: &KPlan, n: usize, obs: &Shared<Obs>, mut send: impl 
                 4 => vec![0, 0, 1, 1, 1, 2, 3, 4, 0, 80, 9],
                 5 => vec![0, 0, 0, 3, 2, b'a', b'b', 0, 80, 9],
                 6 => vec![9, 9, 0, 1, 1, 2, 3, 4, 0, 80],
-                _ => vec![0, 0, 0, 9, 1, 2, 3, 4, 0, 80, 1, 2, 3],
+                7 => vec![0, 0, 0, 9, 1, 2, 3, 4, 0, 80, 1, 2, 3],
+                k @ 8..=29 => {
+                    let mut d = vec![0u8, 0, 0, 4];
+                    d.extend_from_slice(&"2606:4700::99".parse::<std::net::Ipv6Addr>().unwrap().octets());
+                    d.extend_from_slice(&7001u16.to_be_bytes());
+                    d.truncate((*k - 8) as usize);
+                    d
+                }
+                k => {
+                    let mut d = vec![0u8, 0, 0, 1, 93, 184, 220, 1];
+                    d.extend_from_slice(&7000u16.to_be_bytes());
+                    d.truncate((*k as usize).saturating_sub(30).min(9));
+                    d
+                }
             };
             world::count("socks_bad_datagram");
             let _ = world::udp_deliver(sock, relay, &bad);
